@@ -4,6 +4,8 @@ P4 == {"a", "b", "c", "d"}
 BehA == [p \in P4 |-> CASE p = "a" -> "req" [] p = "b" -> "req" [] p = "c" -> "frame" [] OTHER -> "hang"]
 BehB == [p \in P4 |-> CASE p = "a" -> "req" [] p = "b" -> "req" [] p = "c" -> "req" [] OTHER -> "finish"]
 BehC == [p \in P4 |-> CASE p = "a" -> "frame" [] p = "b" -> "finish" [] p = "c" -> "finish" [] OTHER -> "finish"]
+BehD == [p \in P4 |-> CASE p = "a" -> "early" [] p = "b" -> "never" [] p = "c" -> "req" [] OTHER -> "frame"]
+BehE == [p \in P4 |-> CASE p = "a" -> "early" [] p = "b" -> "early" [] p = "c" -> "finish" [] OTHER -> "hang"]
 IniA == [p \in P4 |-> CASE p = "a" -> 0 [] p = "b" -> 1 [] p = "c" -> 0 [] OTHER -> 2]
 ReqA == [p \in P4 |-> CASE p = "a" -> 2 [] p = "b" -> 2 [] p = "c" -> 0 [] OTHER -> 0]
 ReqB == [p \in P4 |-> CASE p = "a" -> 4 [] p = "b" -> 3 [] p = "c" -> 3 [] OTHER -> 0]
